@@ -183,6 +183,27 @@ def h_step_gate(env, N, r, gate, qubits, direction):
         env.goal('rank_unchanged', eq(state.r, r))
 
 
+def h_step_circuit(env, N, r, prog, config, direction, cls='CliffordCircuit'):
+    """a whole circuit (layers packed by take(), optionally compiled into layer maps / one map) applied to an arbitrary Inv
+    state: the result satisfies Inv.  Programs are shapes in which a later gate slides back past earlier layers."""
+    from .circuits import make_gates, build_circuit, compile_as
+    M = Mods(env)
+    gs, ps = sym_state(env, N)
+    state = mk_state(M, env, gs, ps, r)
+    gates, tables, assumptions = make_gates(env, M, N, prog)
+    for a in assumptions:
+        env.assume(a, 'map gates valid')
+    built = env.run(lambda: compile_as(build_circuit(M, N, gates, cls, 'orig'), config, N))
+    env.goal('circuit_built', b_not(built.raised))
+    if built.value is None:
+        return
+    res = env.run(lambda: getattr(built.value, direction)(state))
+    env.goal('no_exception', b_not(res.raised))
+    if res.value is not None:
+        inv_goals(env, state.gs, state.ps, state.r, N, r)
+        env.goal('rank_unchanged', eq(state.r, r))
+
+
 def h_step_measure_layer(env, N, r, qubits):
     M = Mods(env)
     gs, ps = sym_state(env, N)
@@ -286,6 +307,18 @@ def jobs(tier):
             J.append(dict(harness=('c05', 'h_step_random_gate'), params=dict(N=N, r=r, qubits=[0, 1], direction=direction), cost=20, timeout_s=300))
         for k in range(24):
             J.append(dict(harness=('c05', 'h_step_gate'), params=dict(N=N, r=r, gate='C%d' % k, qubits=[k % 2], direction='forward' if k % 2 else 'backward')))
+    # whole circuits on an arbitrary Inv state of three qubits; the disjointness of gates sharing a layer (which compile()
+    # relies on) is the packing lemma, decided on every placement shape with four operations
+    progs = [[['CNOT', [0, 1]], ['H', [0]], ['CNOT', [1, 2]], ['H', [1]]],
+             [['H', [2]], ['CNOT', [0, 1]], ['S', [0]], ['CNOT', [2, 1]]],
+             [['gen', [0, 1]], ['gen', [2]], ['gen', [1, 2]], ['gen', [0]]],
+             [['S', [1]], ['CNOT', [1, 2]], ['H', [0]], ['CNOT', [0, 2]], ['H', [1]]]]
+    for prog in progs:
+        for config in ('plain', 'layers', 'circuit'):
+            for r in (0, 1) if tier == 'quick' else (0, 1, 2, 3):
+                J.append(dict(harness=('c05', 'h_step_circuit'), params=dict(N=3, r=r, prog=prog, config=config, direction='forward' if r == 0 else 'backward'),
+                              timeout_s=300, cost=15))
+    J.append(dict(harness=('circuits', 'h_packing_all'), params=dict(N=3, n_ops=4), cost=12))
     if tier == 'thorough':
         for fix in itertools.product((0, 1), repeat=6):
             for r in range(4):
